@@ -238,7 +238,13 @@ def apply_op(mpc, secfxp, op, x, c):
     if op == 'pow': return x[0] ** c
     if op == 'sin': return mpc.sin(x[0])
     if op == 'cos': return mpc.cos(x[0])
-    if op == 'trunc': return mpc.trunc(x[0], f=c)
+    if op == 'trunc':
+        if c % 2:
+            return mpc.trunc(x[0], f=c)
+        lst = [x[0], x[0] + 1]               # list form; the caller goes on using its list right after the call
+        r = mpc.trunc(lst, f=c)
+        lst.reverse()
+        return r[0]
     if op == 'abs': return abs(x[0])
     if op == 'sgn': return mpc.sgn(x[0])
     if op == 'min2': return mpc.min(x[0], x[1])
